@@ -70,10 +70,26 @@ impl Variable {
     fn debug(&self, depth: u8) -> String {
         match_any! { self,
             Self::Int(value)
-            | Self::Float(value)
-            | Self::String(value) => format!("{value:?}"),
+            | Self::Float(value) => format!("{value:?}"),
+            Self::String(value) => Self::escape_string(value),
             _ => self.string(depth)
         }
+    }
+
+    /// Quotes and escapes a string so that it can be parsed back.
+    /// NUL is written as `\u{0}`: `\0` followed by a digit would be read as an octal escape.
+    fn escape_string(value: &str) -> String {
+        let mut result = String::with_capacity(value.len() + 2);
+        result.push('"');
+        for char in value.chars() {
+            if char == '\0' {
+                result.push_str("\\u{0}");
+            } else {
+                result.extend(char.escape_debug());
+            }
+        }
+        result.push('"');
+        result
     }
 
     pub fn of_type(var_type: &Type) -> Option<Self> {
